@@ -212,6 +212,12 @@ class BehavioralRTLIRTypeCheckVisitorL1( bir.BehavioralRTLIRNodeVisitor ):
     # At L1 it's always signal assignment
     is_rhs_reinterpretable = not node.value._is_explicit
     if is_rhs_reinterpretable and ((not lhs_type(rhs_type)) or (rhs_type != lhs_type)):
+      # An implicitly sized RHS can be zero-extended to the LHS but never truncated
+      if isinstance( lhs_type, rdt.Vector ) and isinstance( rhs_type, rdt.Vector ) and \
+         rhs_type.get_length() > lhs_type.get_length():
+        raise PyMTLTypeError( s.blk, node.ast,
+          f'The LHS of assignment has {lhs_type.get_length()} bits but '
+          f'the integer on the RHS requires more bits ({rhs_type.get_length()})!' )
       s.enforcer.enter( s.blk, target.Type, node.value )
 
     rhs_type = node.value.Type.get_dtype()
